@@ -6,7 +6,7 @@ import vlib, gen_cache
 PROP_MODULES = ["Vlsp.Props.C09"]
 RULE = ("explicit statement-level schedules on real Cache handles sharing one SQLite file (statement points of the "
         "cfg(vlsp_verif) hook): up to 3 claimants, each either on its own handle (UPDATE and INSERT scheduled separately) "
-        "or under a handle mutex (atomic), with release, injected statement failure, and clock advances of 29999/30000/30001 ms, "
+        "or under a handle mutex (atomic), with release, data writes (replace_versions / mark_not_found) while claims are held, injected statement failure, and clock advances of 29999/30000/30001 ms, "
         "for new and already-known packages and for two keys (same name, two registries); every boolean result and the final "
         "claim columns are compared with the Lean small-step model, and the mutual-exclusion property itself is evaluated on "
         "the implementation's results; plus REAL concurrency: 2-16 OS threads, one connection each, released by a barrier on the "
@@ -46,8 +46,14 @@ def sched(rng, n):
             src = parked if (parked and (not entered or rng.chance(1, 2))) else entered
             c = src.pop(rng.below(len(src)))
             L.append(vlib.line("q.busy", c))
-        elif k < 87:
+        elif k < 84:
             L.append(vlib.line("q.release", "a0", *key))
+        elif k < 91:
+            # a data write while claims are held (the owner stores what it fetched BEFORE it releases): claims must survive it
+            if rng.chance(3, 4):
+                L.append(vlib.line("q.store", "a" + str(rng.below(2)), *key, *rng.sample(["1.0.0", "1.1.0", "2.0.0"], rng.below(3))))
+            else:
+                L.append(vlib.line("q.mark", "a" + str(rng.below(2)), *key))
         else:
             L.append(vlib.line("q.tick", str(rng.choice([1, 29999, 30000, 30001, 15000, 2]))))
     for c in entered:
@@ -70,6 +76,8 @@ def streams(ctx):
         ["q.reset", ("q.enter", "1", "h1", *KEYS[0]), ("q.atomic", "2", "a0", *KEYS[0]), ("q.update", "1"), ("q.insert", "1"), ("q.atomic", "3", "a0", *KEYS[1]), "q.dump"],
         ["q.reset", ("q.atomic", "9", "a9", *KEYS[0]), ("q.release", "a9", *KEYS[0]), ("q.enter", "1", "h1", *KEYS[0]), ("q.atomic", "2", "a0", *KEYS[0]), ("q.update", "1"), ("q.insert", "1"), "q.dump"],
     ]
+    fixed.append(["q.reset", ("q.atomic", "1", "a0", *KEYS[0]), ("q.store", "a0", *KEYS[0], "1.0.0"), ("q.atomic", "2", "a1", *KEYS[0]),
+                  ("q.mark", "a0", *KEYS[0]), ("q.atomic", "3", "a1", *KEYS[0]), ("q.release", "a0", *KEYS[0]), ("q.atomic", "4", "a1", *KEYS[0]), "q.dump"])
     hist = [[vlib.line(*(x if isinstance(x, tuple) else (x,))) for x in f] for f in fixed]
     hist += [sched(rng, 3 + rng.below(10)) for _ in range(n)]
     for h in hist:
